@@ -165,7 +165,8 @@ def btcdeb_cmd(draw):
                                         '--nosuchoption', '-Q', '--tx', '--allow-disabled-opcodes']))]
         stdin = draw(st.sampled_from([b'0x51\n', b'', b'[OP_1]\n']))
     else:
-        stdin = draw(st.sampled_from([b'', b'\n', b'\x00', b'0x51', b'[' * 600 + b'\n', b'0x' + b'51' * 6000 + b'\n', b'[OP_1 ' * 300 + b'\n', b'\xff\xfe\n', b'0x51\n0x52\n']))
+        stdin = draw(st.sampled_from([b'1' + b'a' * 10000000 + b'\n', b'9' * 3000000 + b'\n', b'-' + b'7' * 5000000 + b'\n', b'a(' * 100000 + b'1' + b')' * 100000 + b'\n',
+                                      b'', b'\n', b'\x00', b'0x51', b'[' * 600 + b'\n', b'0x' + b'51' * 6000 + b'\n', b'[OP_1 ' * 300 + b'\n', b'\xff\xfe\n', b'0x51\n0x52\n']))
     return dict(tool='btcdeb', argv=argv, stdin=stdin, component=comp)
 
 
@@ -178,11 +179,17 @@ INLINE_ARGS = ['', '0', '1', '-1', '17', '0x', '0x00', '0x80', '0x0000000080', '
 @st.composite
 def inline_expr(draw, depth=1):
     """fn(arg) / fn([a b]) / fn(fn(arg)) expressions: the inline function syntax every tool accepts wherever a value is read"""
-    f = draw(st.one_of(st.sampled_from(INLINE_FUNS), st.sampled_from(['int', 'int', 'jacobi', 'jacobi', 'add', 'sub', 'hex', 'bech32dec', 'base58chkdec', 'spk_to_addr'])))
+    f = draw(st.one_of(st.sampled_from(INLINE_FUNS), st.sampled_from(['int', 'int', 'jacobi', 'jacobi', 'add', 'sub', 'hex', 'bech32dec', 'base58chkdec', 'spk_to_addr', 'verify_sig', 'verify_sig', 'pubkey_to_xpubkey', 'tweak_pubkey'])))
     if f == 'jacobi' and draw(st.booleans()):
         # jacobi([n k]): both 32-byte values; k = 0, 1, 2 (even), n = 0, n = k
         vals = ['0x' + '00' * 32, '0x' + '00' * 31 + '01', '0x' + '00' * 31 + '02', '0x' + 'ff' * 32, '0x' + '0102030405060708' * 4]
         return 'jacobi([%s %s])' % (draw(st.sampled_from(vals)), draw(st.sampled_from(vals)))
+    if f == 'verify_sig' or (f == 'nosuchfun' and draw(st.booleans())):
+        # verify_sig([sighash pubkey signature]): sighash of 32 / 64 / other sizes, compressed / x-only / odd keys, DER / 64-byte / odd signatures
+        hs = draw(st.sampled_from(['0x' + '11' * 32, '0x' + '11' * 64, '0x' + '11' * 31, '0x', '0x' + '11' * 33]))
+        ks = draw(st.sampled_from(['0x02' + 'ab74ff5864c29ab400030afc05a7c141c4970707fef9dbb0ac24115867c987a5', '0x' + KEY_X.hex(), '0x' + '22' * 32, '0x02' + '00' * 32, '0x04' + '11' * 64, '0x' + '11' * 20]))
+        ss = draw(st.sampled_from(['0x3006020101020101', '0x' + '33' * 64, '0x' + '33' * 65, '0x' + '33' * 63, '0x', '0x30', '0x' + '30' * 72]))
+        return 'verify_sig([%s %s %s])' % (hs, ks, ss)
     k = draw(st.integers(0, 5))
     if k == 0 and depth > 0:
         inner = draw(inline_expr(depth - 1))
@@ -207,7 +214,8 @@ def btcc_cmd(draw):
         argv = [junk_text(draw) for _ in range(draw(st.integers(1, 4)))]
     elif kind == 'deep':
         d = draw(st.sampled_from([50, 200, 1000, 5000, 20000]))
-        argv = ['[' * d + 'OP_1' + ']' * d]
+        # nesting of brackets, of inline function calls, and of both
+        argv = [draw(st.sampled_from(['[' * d + 'OP_1' + ']' * d, 'a(' * d + '1' + ')' * d, 'echo(' * d + '0x01' + ')' * d, 'sha256([' * min(d, 2000) + '0x01' + '])' * min(d, 2000)]))]
     elif kind == 'long':
         n = draw(st.sampled_from([1000, 20000, 100000]))
         argv = [draw(st.sampled_from(['[' + 'OP_1 ' * n + ']', '0x' + 'ab' * n, 'OP_1 ' * 5 + '#' + 'c' * n, '[' + '0x01 ' * n + ']']))]
